@@ -393,6 +393,33 @@ func arraysRun[T num, A arr[T, A]](k kit[T, A], rc *RunCtx, o *Outcome) {
 				i := w.Choose(rv.shape[big])
 				sidx := make([]int, len(rv.shape))
 				sidx[big] = i
+				if big == 0 && w.Bool(40) {
+					// the same series written through the one-index helpers (an [n,1] or [n,1,1]
+					// column used as a series)
+					val := uniq()
+					what := fmt.Sprintf("%s.Set1(%d,%v) then Apply1 on an n-D series view", rv.how, i, val)
+					x.log = append(x.log, what)
+					l := w.Choose(rv.shape[0])
+					cnt := 1 + w.Choose(rv.shape[0]-l)
+					vals := make([]T, cnt)
+					r.store[rv.offs[flatIndex(sidx, rv.shape)]] = val
+					lidx := make([]int, len(rv.shape))
+					for j := range vals {
+						nvv := uniq()
+						vals[j] = T(nvv)
+						lidx[0] = l + j
+						r.store[rv.offs[flatIndex(lidx, rv.shape)]] = nvv
+					}
+					both(what, "write", v, func(a A) {
+						any(a).(interface{ Set1(int, T) }).Set1(i, T(val))
+						any(a).(interface{ Apply1(int, int, []T) }).Apply1(l, 1, append([]T(nil), vals...))
+					})
+					if !x.aborted {
+						checkStores(what, "write")
+					}
+					o.probe("Set1_Apply1_on_nD_series_view")
+					break
+				}
 				var gv, cv T
 				what := fmt.Sprintf("%s.Get1(%d)", rv.how, i)
 				x.log = append(x.log, what)
@@ -930,6 +957,56 @@ func arraysRun[T num, A arr[T, A]](k kit[T, A], rc *RunCtx, o *Outcome) {
 				hugeCProbe(k, x, w)
 			} else if w.Choose(240) == 239 {
 				largeBlockProbe(k, x, w)
+			} else if w.Choose(5) == 4 {
+				// an empty view (one axis of extent 0, anywhere from the start to the very end of that
+				// axis): nothing to read or write, but every operation must still answer - no panic, an
+				// empty Unroll, reshaping to empty shapes succeeds and to a non-empty one fails,
+				// ReshapeFast agrees with the view's own Contiguous(), both back-ends give the same answers
+				rank := len(rv.shape)
+				loc, dims := make([]int, rank), make([]int, rank)
+				z := w.Choose(rank)
+				for d := 0; d < rank; d++ {
+					loc[d] = w.Choose(rv.shape[d])
+					dims[d] = 1 + w.Choose(rv.shape[d]-loc[d])
+				}
+				loc[z], dims[z] = w.Choose(rv.shape[z]+1), 0
+				what := fmt.Sprintf("%s.Slice(%v,%v,nil) [empty]: Contiguous/Unroll/Reshape/ReshapeFast/CopyFrom", rv.how, loc, dims)
+				x.log = append(x.log, what)
+				var answers [2][4]bool
+				both(what, "bulk", v, func(a A) {
+					isGo := any(a) == any(v.g)
+					fam, tag, slot := "bulk", "go/", 0
+					if !isGo {
+						fam, tag, slot = "cdiff:bulk", "c/", 1
+					}
+					e := a.Slice(append([]int(nil), loc...), append([]int(nil), dims...), nil)
+					cg := e.Contiguous()
+					if u := e.Unroll(); len(u) != 0 {
+						x.fail(fam, "unroll-differs", tag+"unroll/empty", "%s: Unroll of the empty view has %d elements", what, len(u))
+						return
+					}
+					_, e1 := e.Reshape([]int{0})
+					_, e2 := e.Reshape([]int{3, 0})
+					_, e3 := e.Reshape([]int{2})
+					_, e4 := e.ReshapeFast([]int{0})
+					if e1 != nil || e2 != nil || e3 == nil {
+						x.fail(fam, "reshape-error-contract", tag+"reshape/error/empty", "%s: Reshape([0]) -> %v, Reshape([3 0]) -> %v, Reshape([2]) -> %v (the first two must succeed, the third must fail)", what, e1, e2, e3)
+						return
+					}
+					if (e4 == nil) != cg {
+						x.fail(fam, "reshapefast-error-contract", tag+"reshapefast/error/empty", "%s: the view reports Contiguous() == %v but ReshapeFast([0]) -> %v", what, cg, e4)
+						return
+					}
+					e.CopyFrom(e)
+					answers[slot] = [4]bool{cg, e1 == nil, e3 == nil, e4 == nil}
+				})
+				if !x.aborted && answers[0] != answers[1] {
+					x.fail("cdiff:bulk", "empty-view-answers-differ", "c/empty-view", "%s: the Go-backed array answers %v, the C-backed one %v (Contiguous, Reshape ok, Reshape to 2 ok, ReshapeFast ok)", what, answers[0], answers[1])
+				}
+				if !x.aborted {
+					checkStoresBulk(k, x, roots, what)
+				}
+				o.probe("operations_on_an_empty_view")
 			} else if w.Choose(6) == 5 {
 				// a failing call: an out-of-range block write on a scratch array that is not in the
 				// pool panics part-way and is recovered by the caller; nothing is asserted about the
@@ -1488,4 +1565,50 @@ func largeBlockProbe[T num, A arr[T, A]](k kit[T, A], x *arrCtx, w *simrt.Tape) 
 		}
 	}
 	x.o.probe("block_write_of_more_than_65536_elements")
+	// a large scattered view read in bulk: one column of an [n,2] or [n,3] array with more than 2^17
+	// rows (Unroll, and as the source of a copy into a fresh contiguous array), Go-backed
+	rows2 := (1 << 17) + 1 + w.Choose(40000)
+	cols2 := 2 + w.Choose(2)
+	col := w.Choose(cols2)
+	big := make([]T, rows2*cols2)
+	for i := range big {
+		big[i] = T(1 + i%241)
+	}
+	ba := k.fromSlice(big, []int{rows2, cols2})
+	what2 := fmt.Sprintf("%s array [%d %d]: column %d read in bulk", k.name, rows2, cols2, col)
+	x.log = append(x.log, what2)
+	var escaped interface{}
+	func() {
+		defer func() { escaped = recover() }()
+		cv := ba.Slice([]int{0, col}, []int{rows2, 1}, nil)
+		// (the copy first: a failure there belongs to the write family, one of Unroll to the bulk family)
+		dst := k.newGo([]int{rows2, 1})
+		dst.CopyFrom(cv)
+		for i := 0; i < rows2; i += 1 + i%5 {
+			if got := dst.Get([]int{i, 0}); got != big[i*cols2+col] {
+				x.fail("write", "storage-differs", "go/large-block", "%s: after CopyFrom into a fresh array element %d is %v, the source view has %v", what2, i, got, big[i*cols2+col])
+				return
+			}
+		}
+		for i := rows2 - 40; i < rows2; i++ {
+			if got := dst.Get([]int{i, 0}); got != big[i*cols2+col] {
+				x.fail("write", "storage-differs", "go/large-block", "%s: after CopyFrom into a fresh array element %d is %v, the source view has %v", what2, i, got, big[i*cols2+col])
+				return
+			}
+		}
+		u := cv.Unroll()
+		if len(u) != rows2 {
+			x.fail("bulk", "unroll-differs", "go/unroll/large", "%s: Unroll has %d elements, the view has %d", what2, len(u), rows2)
+			return
+		}
+		for i := 0; i < rows2; i++ {
+			if u[i] != big[i*cols2+col] {
+				x.fail("bulk", "unroll-differs", "go/unroll/large", "%s: Unroll()[%d] = %v, the view's element is %v", what2, i, u[i], big[i*cols2+col])
+				return
+			}
+		}
+	}()
+	if escaped != nil {
+		x.fail("bulk", "panic", "go/panic/large", "%s panicked: %v", what2, escaped)
+	}
 }
